@@ -272,6 +272,40 @@ fn clone_points(data: &[u8]) -> Result<(), (String, String)> {
             return Err(("c02:clone".into(), format!("a clone of the parser taken before byte {k} and fed the same bytes does not compare equal to the original")));
         }
     }
+    // the same snapshots restored with clone_from into parsers that were left in the middle of something else (an
+    // overflowed parameter list, a third intermediate, an operating system command, a multi-byte character)
+    const DIRTY: [&[u8]; 5] = [
+        b"\x1b[1;2;3;4;5;6;7;8;9;10;11;12;13;14;15;16;17;18;19;20;21;22;23;24;25;26;27;28;29;30;31;32;33;34",
+        b"\x1b[1 !\"",
+        b"\x1b]a;b",
+        b"x\xf0\x9f",
+        b"\x1bP1;2:3$",
+    ];
+    let mut snap = anstyle_parse::Parser::<anstyle_parse::DefaultCharAccumulator>::new();
+    let mut r0 = Recorder::default();
+    // (the enumerated strings of up to three bytes are legion and their snapshots all look alike: one in four)
+    let sum: usize = data.iter().map(|b| *b as usize).sum();
+    for (k, &b) in data.iter().enumerate() {
+        if k > 0 && pick(k) && (n > 3 || (sum + k) % 4 == 0) {
+            let mut used = anstyle_parse::Parser::<anstyle_parse::DefaultCharAccumulator>::new();
+            let mut scratch = Recorder::default();
+            for &d in DIRTY[k % DIRTY.len()] {
+                used.advance(&mut scratch, d);
+            }
+            used.clone_from(&snap);
+            let mut r2 = Recorder::default();
+            for &b2 in &data[k..] {
+                used.advance(&mut r2, b2);
+            }
+            if r2.ev[..] != rec.ev[r0.ev.len()..] {
+                return Err(("c02:clone".into(), format!("a parser restored with clone_from (from a snapshot taken before byte {k}, into a parser that had seen {:?}) continues differently: {}", show(DIRTY[k % DIRTY.len()]), first_diff(&r2.ev, &rec.ev[r0.ev.len()..]))));
+            }
+            if used != p {
+                return Err(("c02:clone".into(), format!("a parser restored with clone_from before byte {k} and fed the same bytes does not compare equal to the original")));
+            }
+        }
+        snap.advance(&mut r0, b);
+    }
     Ok(())
 }
 
@@ -357,7 +391,14 @@ pub fn run(cfg: &Cfg) -> Stats {
     };
     let mut st = par(cfg, |shard, n| {
         let mut st = Stats::new();
-        if shard == 0 {
+        if cfg.tier == Tier::Tiny && n > 1 {
+            // interpreter lanes: the table comparison is a job of its own (the last shard), so that no shard is much
+            // longer than the others
+            if shard == n - 1 {
+                check_cells(&mut st);
+                return st;
+            }
+        } else if shard == 0 {
             check_cells(&mut st);
         }
         let bu = gen::byte_units(&gen::BYTES40);
@@ -390,7 +431,22 @@ pub fn run(cfg: &Cfg) -> Stats {
         }
         // every lead byte with second / third bytes on the edges of the well-formed ranges (overlong forms, encoded
         // surrogates, beyond U+10FFFF, truncation by a control or an escape), followed by an ordinary sequence
-        if shard == 0 || (n > 1 && shard == 1) {
+        if cfg.tier == Tier::Tiny {
+            // the interpreter lanes: the leads at the edges of each length class only, spread over all shards
+            let mut k = 0u64;
+            for lead in [0xC0u8, 0xC1, 0xC2, 0xDF, 0xE0, 0xE1, 0xED, 0xEF, 0xF0, 0xF4, 0xF5, 0xFF] {
+                for second in [0x7fu8, 0x80, 0x8f, 0x90, 0x9f, 0xa0, 0xbf, 0xc0, 0x1b, 0x18] {
+                    for third in [0x80u8, 0xbf, 0x41, 0x1b] {
+                        k += 1;
+                        if k % n != shard {
+                            continue;
+                        }
+                        let d = [lead, second, third, b'[', b'1', b'm', b'Z', 0xe2, 0x82, 0xac, b'.'];
+                        eval_stream(&d, &mut st, None, "utf8-edges");
+                    }
+                }
+            }
+        } else if shard == 0 || (n > 1 && shard == 1) {
             for lead in 0xC0u16..=0xFF {
                 if n > 1 && (lead as u64) % 2 != shard % 2 {
                     continue;
@@ -405,7 +461,8 @@ pub fn run(cfg: &Cfg) -> Stats {
         }
         // every parameter / sub-parameter value around the saturation point
         if shard == 0 {
-            for v in 65500u32..=65560 {
+            let sweep = if cfg.tier == Tier::Tiny { 65534u32..=65536 } else { 65500u32..=65560 };
+            for v in sweep {
                 for form in [format!("\x1b[{v}m"), format!("\x1b[1;{v};2m"), format!("\x1b[4:{v}m"), format!("\x1bP{v};1q\x1b\\"), format!("\x1b[0{v}m"), format!("\x1b[{v}0m")] {
                     eval_stream(form.as_bytes(), &mut st, None, "saturation");
                 }
